@@ -102,27 +102,31 @@ def handle (j : Json) : Except String Json := do
       ("pts", Json.arr ptJ.toArray), ("pairs", Json.arr pairJ.toArray), ("us", Json.arr uJ.toArray)]
   | "hist" =>
     -- one atom of a Shelxfile object under a history of edits:
-    -- {"cell", "xyz", "u", "new": bool, "edits": [{"op": "uvals"|"set_uvals"|"item"|"frac"|"cell", …}]}
+    -- {"cell", "xyz", "u", "new": bool, "edits": [{"op": "uvals"|"set_uvals"|"item"|"frac"|"cell"|"ask", …}]}
     let cl ← field j "cell" >>= floats
     let c ← cellOf cl
     let p ← field j "xyz" >>= floats >>= v3Of
     let u ← field j "u" >>= floats >>= u6Of
     let isNew ← boolField j "new"
-    let es ← (← arrField j "edits").mapM (fun e => do
+    let steps ← (← arrField j "edits").mapM (fun e => do
       match ← strField e "op" with
-      | "uvals" => return FEdit.atomEdit (Edit.assignUvals (← field e "u" >>= floats >>= u6Of))
-      | "set_uvals" => return FEdit.atomEdit (Edit.setUvals (← field e "u" >>= floats >>= u6Of))
-      | "item" => return FEdit.atomEdit (Edit.setItem (← natField e "k") (← floatField e "v"))
-      | "frac" => return FEdit.atomEdit (Edit.setFrac (← field e "xyz" >>= floats >>= v3Of))
-      | "cell" => return FEdit.setCell (← field e "cell" >>= floats >>= cellOf)
+      | "uvals" => return Step.edit (FEdit.atomEdit (Edit.assignUvals (← field e "u" >>= floats >>= u6Of)))
+      | "set_uvals" => return Step.edit (FEdit.atomEdit (Edit.setUvals (← field e "u" >>= floats >>= u6Of)))
+      | "item" => return Step.edit (FEdit.atomEdit (Edit.setItem (← natField e "k") (← floatField e "v")))
+      | "frac" => return Step.edit (FEdit.atomEdit (Edit.setFrac (← field e "xyz" >>= floats >>= v3Of)))
+      | "cell" => return Step.edit (FEdit.setCell (← field e "cell" >>= floats >>= cellOf))
+      | "ask" => return Step.askInverse            -- cell.o.inversed / shx.orthogonal_matrix.inversed evaluated here
       | o => err s!"C12: unknown edit {o}")
+    let es := stepEdits steps
     let m := orthoM fsqrt c
     let a0 := if isNew then newAtom fsqrt c p u else parseAtom m p u
-    let s := fileHistory fsqrt (readFile fsqrt c a0) es
+    let sm := stepHistory fsqrt (readFresh fsqrt c a0) steps
+    let s := sm.file
     let so := fileHistoryOld fsqrt (readFile fsqrt c a0) es
     let ofU (u : U6 Float) : Json := ofFloats [u.u11, u.u22, u.u33, u.u23, u.u13, u.u12]
     return Json.mkObj [("frac", ofV3 s.atom.frac), ("cart", ofV3 s.atom.cart), ("uvals", ofU s.atom.uvals),
                        ("cart_shx", ofV3 (mulVec s.om s.atom.frac)),
+                       ("back_inv", ofV3 (mulVec (answerInverse fsqrt sm) s.atom.cart)),
                        ("ueq_aniso", ofFloat (ueqAniso fsqrt s.cell s.atom.uvals)),
                        ("cart_old", ofV3 so.atom.cart), ("cart_shx_old", ofV3 (mulVec so.om so.atom.frac)),
                        ("spec_frac", ofV3 (specFrac p (atomEdits es))), ("spec_uvals", ofU (specUvals u (atomEdits es))),
